@@ -174,6 +174,15 @@ theorem forall₂_mem {α β} {R : α → β → Prop} : ∀ {l : List α} {fs :
   | _, _, .cons hab h => .cons ⟨List.mem_cons_self, hab⟩
       ((forall₂_mem h).imp fun _ _ hh => ⟨List.mem_cons_of_mem _ hh.1, hh.2⟩)
 
+theorem forall₂_exists_left {α β} {R : α → β → Prop} : ∀ {l : List α} {fs : List β}, List.Forall₂ R l fs →
+    ∀ f ∈ fs, ∃ a ∈ l, R a f
+  | _, _, .nil, f, hf => by cases hf
+  | _, _, .cons hab h, f, hf => by
+    rcases List.mem_cons.mp hf with rfl | hf
+    · exact ⟨_, List.mem_cons_self, hab⟩
+    · obtain ⟨a, ha, haf⟩ := forall₂_exists_left h f hf
+      exact ⟨a, List.mem_cons_of_mem _ ha, haf⟩
+
 theorem mapM_ok_of_forall {α β} (g : α → Except Err β) :
     ∀ (l : List α), (∀ a ∈ l, ∃ b, g a = .ok b) → ∃ fs, l.mapM g = .ok fs
   | [], _ => ⟨[], rfl⟩
